@@ -292,7 +292,9 @@ def gen_history(rng, tier, kd="pick", style=None, mod="pick", scalar_init=None, 
         mod = None     # the table allocates one bucket per residue: keep the modulus small (and representable in the key dtype)
     vdtype = rng.choice(["int64", "float64", "int32"])
     scalar_init = rng.random() < 0.4 if scalar_init is None else scalar_init
-    init = rng.choice([5, 0, 7]) if scalar_init else [rng.randint(-9, 9) for _ in keys]
+    init = rng.choice([5, 0, 7, 2.5, 0.25]) if scalar_init else [rng.randint(-9, 9) for _ in keys]
+    if isinstance(init, float):
+        vdtype = "float64"
     m = mod if mod is not None else 2 * n - 1
 
     def nonkey(wide=False):
